@@ -4,6 +4,8 @@
 # over /repo in a private mount namespace for the duration of the check (so concurrent runs against the real /repo are not disturbed).
 NAME=$1; CHECK=$2; TIER=${3:-quick}; SEED=${4:-1}; S=${SCRATCH:-/tmp/mut/S}
 [ -d $S/.git ] || { git clone -q /repo $S && cp /repo/Cargo.lock $S/; } || exit 2
+# the scratch clone follows /repo's HEAD
+[ "$(git -C $S rev-parse HEAD)" = "$(git -C /repo rev-parse HEAD)" ] || { git -C $S checkout -q -- . ; git -C $S fetch -q /repo HEAD && git -C $S reset -q --hard FETCH_HEAD; }
 git -C $S checkout -q -- . && git -C $S apply /verif/seeded/$NAME/patch.diff || exit 2
 unshare -m bash -c "mount --bind $S /repo && cd /verif && VERIF_TARGET=${S}_target VERIF_SEED=$SEED ./check $CHECK --tier $TIER 2>&1 | grep -v '^  ' | cut -c1-260 | tail -6"
 git -C $S checkout -q -- .
